@@ -5,6 +5,8 @@ package harness
 import (
 	"encoding/json"
 	"fmt"
+	"github.com/platinummonkey/go-concurrency-limits/strategy"
+	"github.com/platinummonkey/go-concurrency-limits/strategy/matchers"
 	"path/filepath"
 	"runtime"
 	"sync"
@@ -132,6 +134,93 @@ func TestPartitionRandom(t *testing.T) {
 				break
 			}
 			w.write(J{"ev": "Op", "trace": tr, "op": op, "res": res, "post": s.obs()})
+		}
+	}
+}
+
+// TestPartitionMoved records histories of a strategy one of whose partition objects has lived in another strategy
+// before (granted and released tokens there, then removed - RemovePartitionsMatching hands the objects out, AddPartition
+// takes them): the object's past is no part of its new owner's contract (C02, C03: counts and shares are the owner's).
+func TestPartitionMoved(t *testing.T) {
+	w := newNdWriter(t, filepath.Join(outDir(t), "partition_moved_trace.ndjson"))
+	defer w.close()
+	tr := 100000 // appended to the random histories by the pipeline
+	for rep := 0; rep < 3; rep++ {
+		for _, kind := range []string{"predicate", "lookup"} {
+			cfg := partCfg{Kind: kind, Den: 16, Limit: 6 + rep, Objs: map[string]partObjCfg{
+				"p0": {Name: "a", Num: 4, Match: []string{"a"}, Built: 1},
+				"p1": {Name: "b", Num: 8, Match: []string{"b"}, Built: 1},
+			}, Init: []string{"p0"}, Variant: map[string]string{"unknown": "contract", "add": "contract"}}
+			s, err := newPartSUT(cfg)
+			if err != nil {
+				t.Fatal(err)
+			}
+			// the former owner: p1 is registered there, serves a few requests, and is removed again
+			if kind == "predicate" {
+				other := strategy.NewPredicatePartitionWithMetricRegistry("other", 0.25, matchers.StringPredicateMatcher("x", false), s.reg)
+				a, err := strategy.NewPredicatePartitionStrategyWithMetricRegistry([]*strategy.PredicatePartition{other, s.pobj["p1"]}, 12, s.reg)
+				if err != nil {
+					t.Fatal(err)
+				}
+				var toks []core.StrategyToken
+				for i := 0; i < 2+rep; i++ {
+					if tok, ok := a.TryAcquire(keyCtx(kind, "b")); ok {
+						toks = append(toks, tok)
+					}
+				}
+				for _, tok := range toks {
+					tok.Release()
+				}
+				if removed, ok := a.RemovePartitionsMatching(keyCtx(kind, "b")); !ok || len(removed) != 1 || removed[0] != s.pobj["p1"] {
+					t.Fatalf("former owner did not hand the partition back")
+				}
+			} else {
+				a, err := strategy.NewLookupPartitionStrategyWithMetricRegistry(map[string]*strategy.LookupPartition{"b": s.lobj["p1"]}, nil, 12, s.reg)
+				if err != nil {
+					t.Fatal(err)
+				}
+				var toks []core.StrategyToken
+				for i := 0; i < 2+rep; i++ {
+					if tok, ok := a.TryAcquire(keyCtx(kind, "b")); ok {
+						toks = append(toks, tok)
+					}
+				}
+				for _, tok := range toks {
+					tok.Release()
+				}
+				a.RemovePartition("b")
+			}
+			s.reg.takeSamples()
+			w.write(J{"ev": "Reset", "trace": tr, "cfg": cfg, "post": s.obs()})
+			step := func(op partOp) bool {
+				res, err := s.apply(op)
+				if err != nil {
+					w.write(J{"ev": "Op", "trace": tr, "op": op, "res": J{"ok": false, "err": err.Error()}, "post": J{}})
+					return false
+				}
+				w.write(J{"ev": "Op", "trace": tr, "op": op, "res": res, "post": s.obs()})
+				return true
+			}
+			ok := step(partOp{Op: "add", Obj: "p1"})
+			for i := 0; ok && i < 24; i++ {
+				switch {
+				case i%4 == 3 && len(s.tokens["p1"]) > 0:
+					ok = step(partOp{Op: "rel", Bin: "p1"})
+				case i%7 == 5:
+					ok = step(partOp{Op: "try", Key: "a"})
+				default:
+					ok = step(partOp{Op: "try", Key: "b"})
+				}
+			}
+			for _, b := range []string{"p1", "p0"} {
+				for ok && len(s.tokens[b]) > 0 {
+					ok = step(partOp{Op: "rel", Bin: b})
+				}
+			}
+			for i := 0; ok && i < 4; i++ { // with everything given back the new owner admits its full limit again
+				ok = step(partOp{Op: "try", Key: "b"})
+			}
+			tr++
 		}
 	}
 }
